@@ -197,6 +197,7 @@ let do_di toks =
   | _ -> Printf.printf "DI ? badquery\n"
 
 let show_content pfx id c = match c with
+  | CBytes [] -> Printf.printf "%s %d none\n" pfx id
   | CBytes b -> Printf.printf "%s %d %s\n" pfx id (hex b)
   | COpaque w -> Printf.printf "%s %d opaque%d\n" pfx id (iz w)
   | CErr e -> Printf.printf "%s %d err%d\n" pfx id (iz e)
